@@ -46,11 +46,11 @@ Lemma rr_bind a b : rr a -> rr b -> rr (a ;; b).
 Proof. intros Ha Hb s. apply RRm_bind; [apply Ha|intros _; apply Hb]. Qed.
 
 Lemma rr_ret : rr ret.
-Proof. intros s. unfold RRm, RRv. simpl. split; [reflexivity|lia]. Qed.
+Proof. intros s. unfold RRm, RRv, ret, st, fl. simpl. split; [reflexivity|lia]. Qed.
 Lemma rr_stop f : f <> Susp -> rr (stop f).
 Proof. intros H s. unfold RRm, RRv, stop, fl, st. simpl. destruct f; try exact I; [split; [reflexivity|lia]|congruence]. Qed.
 Lemma rr_say o : rr (say o).
-Proof. intros s. unfold RRm, RRv. simpl. split; [reflexivity|lia]. Qed.
+Proof. intros s. unfold RRm, RRv, say, st, fl. simpl. split; [reflexivity|lia]. Qed.
 Lemma rr_upd f : (forall s, cur (f s) = cur s /\ gen (f s) = gen s) -> rr (upd f).
 Proof. intros H s. unfold RRm, RRv, upd, fl, st. simpl. destruct (H s) as [A B]. split; [exact A|lia]. Qed.
 Lemma rr_updr f : (forall l, rH (f l) = rH l /\ rR (f l) = rR l) -> rr (updr f).
@@ -162,9 +162,12 @@ Proof. unf_r. rrs. Qed.
 Lemma rr_advance_after_ch bh h pr : rr (advance_after_ch bh h pr).
 Proof. unf_r. rrs. Qed.
 
+Lemma RRm_withS (k : sm -> M) s : RRm (k s) s -> RRm (withS k) s.
+Proof. intros H. exact H. Qed.
+
 Lemma rr_init_after_vrv v : rr (init_after_vrv v).
 Proof.
-  intros s. unfold RRm, init_after_vrv, withS. cbv zeta.
+  intros s. unfold init_after_vrv. apply RRm_withS. cbv zeta.
   apply RRm_bind; [apply RRm_reset_same|intros _].
   match goal with |- RRm ?m _ => assert (X : rr m); [|apply X] end.
   unf_r. rrs.
@@ -172,7 +175,7 @@ Qed.
 
 Lemma rr_init_after_ch bh h pr : rr (init_after_ch bh h pr).
 Proof.
-  intros s. unfold RRm, init_after_ch, withS.
+  intros s. unfold init_after_ch. apply RRm_withS.
   apply RRm_bind; [apply RRm_reset_same|intros _].
   match goal with |- RRm ?m _ => assert (X : rr m); [|apply X] end.
   unf_r. rrs.
@@ -229,7 +232,7 @@ Lemma ec_upd f : ec (upd f). Proof. intros s. reflexivity. Qed.
 Lemma ec_updr f : ec (updr f). Proof. intros s. reflexivity. Qed.
 Lemma ec_bind a b : ec a -> ec b -> ec (a ;; b).
 Proof.
-  intros Ha Hb s. unfold bindM, fl, ou in *. specialize (Ha s). destruct (a s) as [[s1 o1] f1]. simpl in *.
+  intros Ha Hb s. unfold ec, bindM, fl, ou in *. specialize (Ha s). destruct (a s) as [[s1 o1] f1]. simpl in *.
   destruct f1; simpl; try exact Ha.
   specialize (Hb s1). destruct (b s1) as [[s2 o2] f2]. simpl in *. rewrite ents_app, Ha, Hb. reflexivity.
 Qed.
@@ -261,13 +264,13 @@ Ltac ec_step :=
   | |- ec (match ?x with _ => _ end) => destruct x
   end.
 Ltac ecs := repeat (ec_step; cbv beta zeta).
-Ltac unf_e := unf_r; unfold init_after_vrv, init_after_ch, advance_round, advance_height, reset, set_hr, cancel_timer.
+Ltac unf_e := unfold init_after_vrv, init_after_ch; unf_r; unfold advance_round, advance_height, reset, set_hr, cancel_timer.
 
 Lemma ec_view_tail v ja : ec (view_tail v ja).
 Proof. unf_e. ecs. Qed.
 Lemma ec_suspend m v ja : ec m -> ec (suspend_with_tail m v ja).
 Proof.
-  intros Ha s. unfold suspend_with_tail, fl, ou in *. specialize (Ha s). destruct (m s) as [[s1 o1] f1]. simpl in *.
+  intros Ha s. unfold ec, suspend_with_tail, fl, ou in *. specialize (Ha s). destruct (m s) as [[s1 o1] f1]. simpl in *.
   destruct f1; simpl; try exact Ha.
   pose proof (ec_view_tail v ja s1) as Hb. unfold fl, ou in Hb.
   destruct (view_tail v ja s1) as [[s2 o2] f2]. simpl in *. rewrite ents_app, Ha, Hb. reflexivity.
@@ -301,7 +304,7 @@ Proof. unf_e. ecs. Qed.
 Lemma ec_resume m tail : ec m -> forall s,
   ents (ou (resume_adv m tail s)) = match fl (resume_adv m tail s) with Susp => 1%nat | _ => 0%nat end.
 Proof.
-  intros Hm s. pose proof (Hm (set_run Idle s)) as Ha. unfold resume_adv, fl, ou in *.
+  intros Hm s. pose proof (Hm (set_run Idle s)) as Ha. unfold ec, resume_adv, fl, ou in *.
   destruct (m (set_run Idle s)) as [[s1 o1] f1]. simpl in *.
   destruct f1; simpl; try exact Ha.
   destruct tail as [[v ja]|]; [|exact Ha].
